@@ -79,4 +79,7 @@ let () =
     of_result (fun l -> VT (List.map val_to_value l)) (Model.c14_pem_decode_key b64dec (vb pem)) | _ -> raise (Bad "arity"));
   register "c14_pubkey_from_pem" (function [pem] ->
     of_result (function Model.Inl v -> val_to_value v | Model.Inr l -> VT (List.map val_to_value l))
-      (Model.c14_pubkey_from_pem b64dec (vb pem)) | _ -> raise (Bad "arity"))
+      (Model.c14_pubkey_from_pem b64dec (vb pem)) | _ -> raise (Bad "arity"));
+  register "c14_cli_pubkey" (function [p; a; b; n; gx; gy; data; c; pem] ->
+    of_result (fun r -> VB r) (Model.c14_cli_pubkey b64enc (vi p) (vi a) (vi b) (vi n) (g_of gx gy) (vb data) (vbool c) (vbool pem))
+    | _ -> raise (Bad "arity"))
